@@ -11,6 +11,7 @@ pub type CloneFn = unsafe fn(src: *const u8, dst: *mut u8, len: usize);
 unsafe fn clone_fn<T: Clone>(src: *const u8, dst: *mut u8, len: usize){
     let src = src as *const T;
     let dst = dst as *mut T;
+    #[cfg_attr(kani, kani::loop_invariant(crate::kani_verif::k1_loops::cf_inv(kani::index, len)))]
     for i in 0..len {
         let dst = dst.add(i);
         let src = src.add(i);
